@@ -269,7 +269,7 @@ class History:
         same_size = tape.coin(0.35, "pool.same_size")
         n_fixed = None
         for i in range(3):
-            ds = gen_dataset(tape, ncomp=self.ncomp, nmin=30, nmax=60, allow_extra=False, weights=self.has_w, tag=f"D{i}", n=n_fixed)
+            ds = gen_dataset(tape, ncomp=self.ncomp, nmin=30, nmax=60, allow_extra=True, weights=self.has_w, tag=f"D{i}", n=n_fixed)
             if same_size:
                 n_fixed = ds.n
             self._protect(ds)
